@@ -1440,6 +1440,15 @@ int32 matrixResumeSession(ssl_t *ssl)
         return PS_FAILURE;
     }
 
+    /* The suite must still be one this server session allows: it may have
+       been disabled (globally or for this session) since the entry was
+       made, and sslGetCipherSpec also refuses it for another version. */
+    if (sslGetCipherSpec(ssl, g_sessionTable[i].cipher->ident) == NULL)
+    {
+        psUnlockMutex(&g_sessionTableLock);
+        return PS_FAILURE;
+    }
+
     /* Looks good */
     Memcpy(ssl->sec.masterSecret, g_sessionTable[i].masterSecret,
         SSL_HS_MASTER_SIZE);
